@@ -109,7 +109,8 @@ def run(ctx):
     rep.guarded("codes", F, lambda: rule_codes(facts, rep))
     rep.guarded("extended", F, lambda: rule_extended(facts, rep))
     rep.guarded("wiring", F, lambda: rule_wiring(facts, rep))
-    for r, n in (("codes", 56), ("extended", 12), ("wiring", 8)):
+    rep.guarded("lists", F, lambda: rule_lists(facts, rep, ctx.tier))
+    for r, n in (("codes", 56), ("extended", 12), ("wiring", 8), ("lists", 1)):
         rep.floor(r, n)
 
 
@@ -346,3 +347,79 @@ def rule_wiring(facts, rep):
         rep.check(isinstance(full, tuple) and len(full) == 4 and full[i] == want_full[i], "wiring", b["path"], f"result.{k}←{k}",
                   f"parse('1;31;42;58;5;9') = {full}", loc(b))
     rep.check(obs("1;31;42;58;5;9;0") == (None, None, None, 0), "wiring", b["path"], "result-built-on-Style::new()", "a final 0 gives the default style", loc(b))
+
+
+def list_model(codes, bit):
+    """The style a list of codes denotes (the property's reading of SGR, from spec/sgr.py): (fg, bg, underline, effect bits)."""
+    fg = bg = ul = None
+    eff = 0
+    i = 0
+    while i < len(codes):
+        c = codes[i]
+        i += 1
+        if c == 0:
+            fg = bg = ul = None
+            eff = 0
+        elif c in sgr.EFFECT_ON and 1 <= c <= 9:
+            eff |= bit[sgr.EFFECT_ON[c]]
+        elif c in sgr.EFFECT_OFF:
+            for e_ in sgr.EFFECT_OFF[c]:
+                eff &= ~bit[e_]
+        elif sgr.colour_code(c):
+            slot, name = sgr.colour_code(c)
+            if slot == "fg":
+                fg = ("ansi", name)
+            else:
+                bg = ("ansi", name)
+        elif c in (39, 49, 59):
+            fg, bg, ul = (None if c == 39 else fg), (None if c == 49 else bg), (None if c == 59 else ul)
+        elif c in (38, 48, 58):
+            sel = codes[i] if i < len(codes) else None
+            a0 = codes[i + 1] if i + 1 < len(codes) else None
+            i += 2
+            col = None
+            if sel == 5 and a0 is not None:
+                col = ("idx", a0)
+            elif sel == 2 and a0 is not None:
+                if i + 1 < len(codes):
+                    col = ("rgb", a0, codes[i], codes[i + 1])
+                i += 2
+            if col is None:
+                break                       # a form that is cut short or has another selector stops the list
+            fg, bg, ul = (col if c == 38 else fg), (col if c == 48 else bg), (col if c == 58 else ul)
+    return (fg, bg, ul, eff)
+
+
+def rule_lists(facts, rep, tier="quick"):
+    """Lists of codes against the model, by evaluation: all ordered pairs over a set of codes (quick: one representative per
+    class; thorough: every pair over 0..=110 and every triple over the representatives), so that an arm that disturbs what
+    another code set — in either order — is seen."""
+    b = facts.body("anstyle_ls", F)
+    bit = {n_: v for n_, v, _ in ac.effect_consts(facts)}
+    reps = [0, 1, 2, 4, 5, 6, 7, 9, 10, 21, 22, 24, 25, 27, 29, 30, 31, 37, 39, 40, 47, 49, 59, 60, 90, 97, 100, 107, 108, 110]
+    ext = ["38;5;9", "48;5;200", "58;5;3", "38;2;1;2;3", "48;2;4;5;6", "58;2;7;8;9", "38", "48;5", "58;2;1"]
+    items = [str(c) for c in reps] + ext
+    lists = [[x, y] for x in items for y in items]
+    if tier == "thorough":
+        lists += [[str(x), str(y)] for x in range(111) for y in range(111)]
+        small = [0, 1, 2, 4, 22, 24, 31, 39, 42, 49, 59, 91, 104, 60]
+        sm = [str(c) for c in small] + ["38;5;9", "58;2;7;8;9", "48"]
+        lists += [[x, y, z] for x in sm for y in sm for z in sm]
+    bad = []
+    seen = set()
+    for l_ in lists:
+        text = ";".join(l_)
+        if text in seen or text in ("0", "00"):
+            continue
+        seen.add(text)
+        want = list_model([int(x) for x in text.split(";")], bit)
+        try:
+            got = observed(facts, text)
+        except Unrecognised as ex:
+            got = ("not-evaluable", str(ex)[:80])
+        if got != want:
+            bad.append(f"parse({text!r}) = {got}, expected {want}")
+            if len(bad) > 20:
+                break
+    rep.count(len(seen))
+    rep.check(not bad, "lists", b["path"], "pairs-and-triples-against-the-model", f"{len(seen)} lists evaluated {bad[:3]}"[:500], loc(b))
